@@ -119,4 +119,178 @@ theorem feed_horiz (st : St) (hacc : st.acc = .mode) (hnode : st.node = modeTrie
     congr 1
     omega
 
+/-! ### one coded line -/
+
+/-- The parser sits at the start of a line with reference line `ref`, having output `buf`. -/
+structure Ready (w : Nat) (al rv : Bool) (ref : List Bool) (buf : List UInt8) (st : St) : Prop where
+  wd : st.width = w
+  ba : st.bytealign = al
+  rvs : st.reversed = rv
+  rf : st.refline = ref
+  cl : st.curline = List.replicate w true
+  cp : st.curpos = -1
+  col : st.color = true
+  acc : st.acc = .mode
+  node : st.node = modeTrie
+  bf : st.buf = buf
+
+theorem Ready.core {w al rv ref buf st} (h : Ready w al rv ref buf st) (cur : List Bool) :
+    Core w al rv ref cur buf st (-1) true :=
+  ⟨h.wd, h.ba, h.rvs, h.rf, h.bf, by rw [h.cl]; simp, h.cp, h.col, by omega, by omega,
+    by intro i hi; omega, by intro h0; omega⟩
+
+/-- bits discarded after the code word that ended at position `p - 1` completed a line -/
+def skipAfter (al : Bool) (p : Nat) : Nat := if al then 7 - (p - 1) % 8 else 0
+
+section line
+variable {w : Nat} {al rv : Bool} {ref cur : List Bool} {buf : List UInt8}
+
+theorem afterFlush_mid {st : St} {a0 : Int} {color : Bool} (h : Core w al rv ref cur buf st a0 color)
+    (hlt : a0 < w) : afterFlush st = ({ st with acc := .mode, node := modeTrie }, .cont) := by
+  have : ¬ ((st.width : Int) ≤ st.curpos) := by rw [h.wd, h.cp]; omega
+  simp [afterFlush, flushLine, this]
+
+theorem afterFlush_done {st : St} {color : Bool} (h : Core w al rv ref cur buf st (w : Int) color)
+    (hcur : cur.length = w) :
+    ∃ st2, afterFlush st = (st2, if al then .byteSkip else .cont) ∧
+      Ready w al rv cur (buf ++ packLine rv cur) st2 := by
+  have hc : st.curline = cur := by
+    apply List.ext_getElem?
+    intro i
+    by_cases hi : i < w
+    · exact h.pre i (by omega)
+    · rw [List.getElem?_eq_none (by rw [h.curlen]; omega), List.getElem?_eq_none (by omega)]
+  have hle : (st.width : Int) ≤ st.curpos := by rw [h.wd, h.cp]; omega
+  refine ⟨{ (resetLine { st with buf := st.buf ++ packLine st.reversed st.curline }) with
+      acc := .mode, node := modeTrie }, ?_, ?_⟩
+  · simp only [afterFlush, flushLine, hle, if_true, h.ba]
+  · simp only [resetLine]
+    exact ⟨h.wd, h.ba, h.rvs, hc, by simp [h.wd], rfl, rfl, rfl, rfl, by simp [h.bf, h.rvs, hc]⟩
+
+/-- What remains to be shown for the rest of a line once the next code word has been dealt with. -/
+def LineGoal (w : Nat) (al rv : Bool) (cur : List Bool) (buf : List UInt8) (st : St) (code : List Bool) : Prop :=
+  ∃ st', Ready w al rv cur (buf ++ packLine rv cur) st' ∧ code ≠ [] ∧
+    ∀ (pos : Nat) (rest : List Bool), feedFlat st pos 0 (code ++ rest) =
+      feedFlat st' (pos + code.length) (skipAfter al (pos + code.length)) rest
+
+theorem step_finish {st st1 : St} {a0' : Int} {color' : Bool} {code recur : List Bool}
+    (hcur : cur.length = w)
+    (hc1 : Core w al rv ref cur buf st1 a0' color')
+    (hcode : code ≠ [])
+    (hstep : ∀ (pos : Nat) (rest : List Bool), feedFlat st pos 0 (code ++ rest) =
+      afterAccept (.ok (afterFlush st1)) (pos + code.length) rest)
+    (hdone : a0' = w → recur = [])
+    (ih : ∀ st : St, Core w al rv ref cur buf st a0' color' → a0' < w → st.acc = .mode → st.node = modeTrie →
+      LineGoal w al rv cur buf st recur) :
+    LineGoal w al rv cur buf st (code ++ recur) := by
+  by_cases hlt : a0' < w
+  · have haf := afterFlush_mid hc1 hlt
+    obtain ⟨st', hr, hne, hf⟩ := ih { st1 with acc := .mode, node := modeTrie }
+      (hc1.ignore st1.n1 st1.n2 .mode modeTrie) hlt rfl rfl
+    refine ⟨st', hr, by simp [hcode], ?_⟩
+    intro pos rest
+    rw [List.append_assoc, hstep, haf]
+    simp only [afterAccept]
+    rw [hf, List.length_append, Nat.add_assoc]
+  · have hw : a0' = w := by have := hc1.hi; omega
+    subst hw
+    obtain ⟨st2, haf, hr⟩ := afterFlush_done hc1 hcur
+    rw [hdone rfl, List.append_nil]
+    refine ⟨st2, hr, hcode, ?_⟩
+    intro pos rest
+    rw [hstep, haf]
+    cases al <;> simp [afterAccept, skipAfter]
+
+theorem resolve_pass {ch : T6.Choice} {a1 b1 b2 : Nat} (h : T6.resolve ch a1 b1 b2 = .pass) : b2 < a1 := by
+  by_cases hp : b2 < a1
+  · exact hp
+  · by_cases hv : T6.vertOk a1 b1 = true <;> cases ch <;> simp_all [T6.resolve, T6.stdMode]
+
+theorem resolve_vert {ch : T6.Choice} {a1 b1 b2 : Nat} (h : T6.resolve ch a1 b1 b2 = .vert) :
+    T6.vertOk a1 b1 = true := by
+  by_cases hv : T6.vertOk a1 b1 = true
+  · exact hv
+  · by_cases hp : b2 < a1 <;> cases ch <;> simp [T6.resolve, T6.stdMode, hp, hv] at h
+
+theorem encodeLineAux_done (fuel : Nat) (a0 : Int) (c : Bool) (chs : List T6.Choice)
+    (h : (cur.length : Int) ≤ a0) : T6.encodeLineAux ref cur fuel a0 c chs = [] := by
+  cases fuel with
+  | zero => rfl
+  | succ n => simp [T6.encodeLineAux, h]
+
+/-- Decoding the code of the rest of a line completes the line. -/
+theorem feed_line_aux (hcur : cur.length = w) (href : ref.length = w) :
+    ∀ (fuel : Nat) (a0 : Int) (color : Bool) (chs : List T6.Choice) (st : St),
+      Core w al rv ref cur buf st a0 color → a0 < w → st.acc = .mode → st.node = modeTrie →
+      (w : Int) - a0 ≤ fuel →
+      LineGoal w al rv cur buf st (T6.encodeLineAux ref cur fuel a0 color chs) := by
+  intro fuel
+  induction fuel with
+  | zero => intro a0 color chs st _ hlt _ _ hf; omega
+  | succ fuel ih =>
+    intro a0 color chs st hc hlt hacc hnode hfuel
+    have hlo := hc.lo
+    have hnot : ¬ ((cur.length : Int) ≤ a0) := by omega
+    simp only [T6.encodeLineAux, hnot, if_false]
+    have hc0 : Core w al rv ref cur buf { st with node := .empty } a0 color := hc.ignore st.n1 st.n2 st.acc .empty
+    have ha1lo : (a0 + 1).toNat ≤ T6.nextNot cur color (a0 + 1).toNat := nextNot_ge _ _ _
+    cases hres : T6.resolve (chs.headD .std) (T6.nextNot cur color (a0 + 1).toNat)
+        (T6.b1Of ref color (a0 + 1).toNat) (T6.b2Of ref color (T6.b1Of ref color (a0 + 1).toNat)) with
+    | pass =>
+      simp only []
+      have hp := resolve_pass hres
+      have hc1 := core_pass hc0 hlt hcur href hp
+      have hb1 : (a0 + 1).toNat ≤ T6.b1Of ref color (a0 + 1).toNat := b1Of_ge _ _ _
+      have hb2 : T6.b1Of ref color (a0 + 1).toNat < T6.b2Of ref color (T6.b1Of ref color (a0 + 1).toNat) := by
+        have hdef : T6.b2Of ref color (T6.b1Of ref color (a0 + 1).toNat) = min ref.length
+            (T6.b1Of ref color (a0 + 1).toNat + 1 +
+              ((ref.drop (T6.b1Of ref color (a0 + 1).toNat + 1)).takeWhile (· == !color)).length) := rfl
+        have : T6.nextNot cur color (a0 + 1).toNat ≤ cur.length := nextNot_le _ _ _ (by omega)
+        omega
+      apply step_finish hcur hc1 (by decide : T6.codeP ≠ [])
+      · intro pos rest
+        rw [feed_follow_leaf _ st pos rest (.mode .p) (by decide) (by rw [hnode]; exact mode_codes_ok.1)]
+        simp only [accept, hacc, parseMode]
+      · intro hw; exact encodeLineAux_done _ _ _ _ (by omega)
+      · intro st' hc' hlt' hacc' hnode'
+        exact ih _ _ _ st' hc' hlt' hacc' hnode' (by omega)
+    | vert =>
+      simp only []
+      have hv := resolve_vert hres
+      simp only [T6.vertOk, decide_eq_true_eq] at hv
+      have hc1 := core_vert hc0 hlt hcur
+      obtain ⟨hne, hfl⟩ := codeV_ok (d := (T6.nextNot cur color (a0 + 1).toNat : Int) - (T6.b1Of ref color (a0 + 1).toNat : Int))
+        (by omega) (by omega)
+      apply step_finish hcur hc1 hne
+      · intro pos rest
+        rw [feed_follow_leaf _ st pos rest _ hne (by rw [hnode]; exact hfl)]
+        simp only [accept, hacc, parseMode]
+      · intro hw; exact encodeLineAux_done _ _ _ _ (by omega)
+      · intro st' hc' hlt' hacc' hnode'
+        exact ih _ _ _ st' hc' hlt' hacc' hnode' (by omega)
+    | horiz =>
+      simp only []
+      obtain ⟨stH, hsl, hcolH, hfH⟩ := feed_horiz st hacc hnode
+        (T6.nextNot cur color (a0 + 1).toNat - a0.toNat)
+        (T6.nextNot cur (!color) (T6.nextNot cur color (a0 + 1).toNat) - T6.nextNot cur color (a0 + 1).toNat)
+      have hcH : Core w al rv ref cur buf stH a0 color := hc.transfer hsl hcolH
+      have hc1 := core_horiz hcH hlt hcur
+      have ha2 : T6.nextNot cur color (a0 + 1).toNat ≤
+          T6.nextNot cur (!color) (T6.nextNot cur color (a0 + 1).toNat) := nextNot_ge _ _ _
+      rw [hc.col] at hfH
+      apply step_finish hcur hc1 (by simp [T6.codeH])
+      · exact hfH
+      · intro hw; exact encodeLineAux_done _ _ _ _ (by omega)
+      · intro st' hc' hlt' hacc' hnode'
+        exact ih _ _ _ st' hc' hlt' hacc' hnode' (by omega)
+
+/-- A whole line. -/
+theorem feed_line (hw : 1 ≤ w) (hcur : cur.length = w) (href : ref.length = w) (chs : List T6.Choice)
+    {st : St} (h : Ready w al rv ref buf st) :
+    LineGoal w al rv cur buf st (T6.encodeLine ref cur chs) := by
+  unfold T6.encodeLine
+  exact feed_line_aux hcur href _ _ _ _ st (h.core cur) (by omega) h.acc h.node (by omega)
+
+end line
+
 end PdfVerif.Ccitt
